@@ -8,7 +8,8 @@ import routing_gen as rg
 MLS = ("routing",)
 HARNESSES = ()
 THEOREMS = ["C05_exactly_once", "C05_copies_only_to_eavesdroppers", "C05_copies_once", "C05_no_third_party_intact", "C05_only_sends_forward", "C05_delivered", "C05_fifo",
-            "C05_undeliverable_no_owner", "C05_refused_opens_nothing", "C05_undeliverable"]
+            "C05_undeliverable_no_owner", "C05_refused_opens_nothing", "C05_undeliverable",
+            "C05_close_keeps_earlier_steps", "C05_close_cleans_up"]
 
 NONTRIVIAL = {"call-delivered", "call-delivered-noreply", "signal-delivered", "reply-delivered", "other-delivered",
               "no-owner-ServiceUnknown", "no-owner-NameHasNoOwner", "limit-refused", "duplicate-serial-refused", "fd-refused"}
@@ -39,7 +40,7 @@ def burst_cases(rnd, n):
 
 def close_cases(rnd, n):
     """fire and forget: one connection writes a burst of 90-130 unicast messages (tens of kB; calls with NO_REPLY_EXPECTED, a few
-    reply-expecting calls, signals; to unique and well-known names, owned or not) in ONE sendall() and closes its socket at
+    reply-expecting calls, signals; to unique and well-known names of other connections) in ONE sendall() and closes its socket at
     once.  Everything that was written completely must be processed as if the sender were still there: exactly once, in
     order, intact; then the sender's state is cleaned up (later events check that)."""
     cases = []
@@ -54,7 +55,10 @@ def close_cases(rnd, n):
             tok += 1
             ty = rnd.choice("cccss")
             nr = 1 if ty == "s" or rnd.random() < 0.9 else 0
-            dst = rnd.choice(("u1", "u1", "u2", "n0", "n0", "n1", "n2", "u0", "u7"))
+            # only destinations that have an owner other than the sender: anything the bus would write back to the closed
+            # socket (error reply, self-send, eavesdropped copy) fails with EPIPE, and the bus then drops the connection
+            # together with its unread input -- timing dependent, see notes/C05.md
+            dst = rnd.choice(("u1", "u1", "u2", "n0", "n0", "n1"))
             ev.append("S.0.%s.%d.%d.%d.0.%s.0.%d" % (ty, nr, rnd.random() < 0.5, 100 + tok, dst, tok))
         ev.append("D.0")
         for k in range(rnd.randint(1, 4)):
